@@ -55,13 +55,15 @@ CLAIMS = {
     'C16': dict(
         text="Decides position / direction / marker agreement of the bit-level coders for all word types and histories: writing the one-hot mask as 2^p, write_bit stores each bit at the position the mask then points to (p+1; a fresh word starts at position 0) and flushes exactly when the word is full; StackCoder::read_bit tests the bit at the mask and steps to p-1 (after a refill: BITS-1), i.e. it undoes write_bit; QueueDecoder::read_bit tests the bit at the mask and steps to p+1 (after a refill: 0), i.e. it replays write_bit; the queue and stack write_bit bodies are identical; len() adds trailing_zeros(mask)+1 bits for the partial word; re-import takes the end marker at the top set bit (where the sealing write_bit(true) puts it), removes it and leaves the mask one position below; all emptiness tests use the same sentinel field; the export guards push and pop symmetrically and view what the export writes. Not decided: the bit contents of the word (that other bits are preserved, that bits above the mask are zero), Exp-Golomb and Huffman round trips for every value.",
         tech="abstract interpretation of one-hot masks in a bit-position domain (power-of-two exponents over symbolic widths); sibling agreement of the step functions; structural (DAG) equality of clones; effect-count guard pairing"),
+    'C12': dict(
+        text="Decides ONLY the word-count clause of the statement ('the number of words produced after n symbols never exceeds n plus a constant that depends only on the type parameters'), for all inputs and configurations: every path of the ANS encode_symbol appends at most one word and exporting appends at most State::BITS/Word::BITS chunks of the state; for the range encoder (words written + held-back words) grows by the number of window shifts, 0 or 1, per symbol, and sealing appends held-back + at most 2 words, exactly as many as num_seal_words() reports. NOT decided: the analytic bound on the number of bits (information content + n*log2(1+2^-(StateBits-WordBits-PRECISION)) + constant, the advertised 0.006 bit/symbol), which is value-level.",
+        tech="loop-summarised effect counting against a potential function (words written + held-back words); affine form of the sealing count; structural bound of the state chunker"),
 }
 
 NA = {
     'C03': "value-level: float rounding / fixed-point tiling for all parameters and quantiles; no sound static argument short of an arithmetic decision procedure bounds these values (structural neighbours are claimed under C05, C19, C20)",
     'C06': "equality with an external reference bit stream: a symmetric change of encoder and decoder is invisible to any sibling rule, and comparing against a frozen copy of today's formulas would alarm on every behaviour-preserving rewrite",
     'C11': "interval arithmetic on lower/range values of the seal words; no structural fact implies it",
-    'C12': "analytic inequality between bit counts and information content (value-level)",
 }
 PENDING = "check not built yet in this round (see DESIGN.md §7 build order); will be claimed or declared not applicable with a reason"
 
